@@ -13,6 +13,8 @@ from explore import expect, conc, Violation
 import linegen as lg
 
 PROPERTY = 'C01'
+HELPERS = os.path.join(hsupport.VERIF, 'helpers/bin')
+CICADA = os.path.join(hsupport.VERIF, 'build/native/debug/cicada')
 BUDGET = {'quick': 420, 'thorough': 3000}
 BOUNDS = {'quick': dict(max_args=2, max_chars=3, pos_chars=2), 'thorough': dict(max_args=3, max_chars=4, pos_chars=3)}
 ASSUMPTIONS = [
@@ -40,7 +42,7 @@ def instances(tier, seed):
 
 # ---------------------------------------------------------------------------------------------------
 def install_stubs(I):
-    I.env = models_env.Env(I, {'HOME': '/home/u', 'PATH': '/verif/helpers/bin'}, unknown='unset')
+    I.env = models_env.Env(I, {'HOME': '/home/u', 'PATH': HELPERS}, unknown='unset')
     I.adversarial = []
     I.glob_results = []
     def glob_handler(I_, pat):
@@ -158,7 +160,7 @@ class NativeEnv:
         self.dir = tempfile.mkdtemp(prefix='cicada-verif-')
         for f in BASE_FILES + ('.hid',):
             open(os.path.join(self.dir, f), 'w').close()
-        self.envd = {'HOME': '/home/u', 'PATH': '/verif/helpers/bin', 'LANG': 'C.UTF-8'}
+        self.envd = {'HOME': '/home/u', 'PATH': HELPERS, 'LANG': 'C.UTF-8'}
         self.nat = nativemod.Native(cwd=self.dir, env=self.envd, timeout=5.0)
         self.empty = tempfile.mkdtemp(prefix='cicada-verif-empty-')
         self.nat_empty = nativemod.Native(cwd=self.empty, env=self.envd, timeout=5.0)
@@ -330,9 +332,9 @@ def binary_replay(styles, args, pos, files=()):
         base = set(os.listdir(d))
         out = os.path.join(d, '.argv.jsonl')
         line = render(styles, args, pos)
-        env = {'HOME': '/home/u', 'PATH': '/verif/helpers/bin', 'ARGV_OUT': out, 'LANG': 'C.UTF-8'}
+        env = {'HOME': '/home/u', 'PATH': HELPERS, 'ARGV_OUT': out, 'LANG': 'C.UTF-8'}
         try:
-            p = subprocess.run(['/verif/build/native/debug/cicada', '-c', line], cwd=d, env=env, stdin=subprocess.DEVNULL,
+            p = subprocess.run([CICADA, '-c', line], cwd=d, env=env, stdin=subprocess.DEVNULL,
                                stdout=subprocess.PIPE, stderr=subprocess.PIPE, timeout=10)
             rc = p.returncode; err = p.stderr.decode('utf-8', 'replace')[-300:]
         except subprocess.TimeoutExpired:
